@@ -101,6 +101,7 @@ class ReplayStats(object):
         self.events = 0
         self.rejected = []     # dicts
         self.samples = []
+        self.okcount = {}      # action -> [calls that returned OK, calls that failed]
         self.wall = 0.0
 
 
@@ -152,8 +153,16 @@ def replay_validate(ctx, name, driver_mod, driver_args, behaviours, trace_module
 
     def handle_chunk(res):
         k, cw, out, rc, err = res
-        local = dict(executions=0, accepted=0, events=0, rejected=[], samples=[])
+        local = dict(executions=0, accepted=0, events=0, rejected=[], samples=[], okcount={})
         execs, lines = split_executions(out)
+        for ln in lines:
+            try:
+                e = json.loads(ln)
+            except ValueError:
+                continue
+            key = e.get("e", "?") + (":" + str(e["f"]) if "f" in e else "") + (":" + str(e["how"]) if "how" in e else "")
+            c = local["okcount"].setdefault(key, [0, 0])
+            c[0 if e.get("rv") == "OK" else 1] += 1
         local["executions"] = len(execs)
         local["events"] = len(lines)
         cur = out
@@ -202,6 +211,10 @@ def replay_validate(ctx, name, driver_mod, driver_args, behaviours, trace_module
         st.events += loc["events"]
         st.rejected.extend(loc["rejected"])
         st.samples.extend(loc["samples"])
+        for k2, v2 in loc["okcount"].items():
+            c = st.okcount.setdefault(k2, [0, 0])
+            c[0] += v2[0]
+            c[1] += v2[1]
     for (k, cw, out, rc, err) in results:
         if rc != 0:
             ctx.notes.append("driver chunk %d of %s ended with rc=%s: %s" % (k, name, rc, err[-300:]))
